@@ -402,9 +402,50 @@ var (
 	tmpOnce  sync.Once
 )
 
+// Concurrently running test processes (shards of one check, other checks) must never
+// listen on the same host:port: all of them share [::1], and with SO_REUSEPORT two
+// unrelated engines bound to one port would share incoming connections. Every process
+// therefore claims a slot (an advisory lock on a file, released by the kernel when the
+// process ends) and allocates ports only from the slot's own range below the
+// ephemeral range.
+const (
+	slotCount = 64
+	slotPorts = 350
+	slotBase  = 10000
+)
+
+var (
+	slot     = -1
+	slotFile *os.File
+	slotOnce sync.Once
+	slotSeq  int
+)
+
+func claimSlot() {
+	dir := filepath.Join(os.TempDir(), "verif-fx-slots")
+	_ = os.MkdirAll(dir, 0o777)
+	for n := 0; n < slotCount; n++ {
+		k := (os.Getpid() + n) % slotCount
+		f, err := os.OpenFile(filepath.Join(dir, strconv.Itoa(k)), os.O_CREATE|os.O_RDWR, 0o666)
+		if err != nil {
+			continue
+		}
+		if unix.Flock(int(f.Fd()), unix.LOCK_EX|unix.LOCK_NB) == nil {
+			slot, slotFile = k, f
+			return
+		}
+		f.Close()
+	}
+}
+
 func allocPort() int {
+	slotOnce.Do(claimSlot)
 	portMu.Lock()
 	defer portMu.Unlock()
+	if slot >= 0 {
+		slotSeq++
+		return slotBase + slot*slotPorts + slotSeq%slotPorts
+	}
 	nextPort++
 	if nextPort > 60000 {
 		nextPort = 15000
